@@ -12,7 +12,8 @@ RULE = ("A case is (protocol version, operation: refresh (issuing state+energy+h
         "values 0..255, every response id 0..255 with random bodies of several lengths, empty / sub-header / oversized "
         "frames; delivered alone or (V3, same TCP segment) before/after/around the good response). Parts 'trunc_all', "
         "'ids_all', 'raw_frames' are enumerated completely; 'fields' and 'random' are seeded. Distinct = distinct "
-        "plan; non-trivial = a malformed frame reached the client.")
+        "plan; non-trivial = a malformed frame reached the client."
+        " Later additions: parts 'bursts_of_rejected_frames', 'well_formed_report_histories' (energy / humidity / property reports with every value combination in any order), 'request_answered_twice'; the state report of a refresh must be applied when only a later query of the same refresh was answered badly.")
 ASSUMPTIONS = [
     "malformed frames carry valid outer checksum and body check byte unless the case is about sub-header frames",
     "mixes of good and bad frames in one exchange need both in one TCP segment, hence V3 (V2 is packet-aligned)",
